@@ -1,6 +1,7 @@
 package main
 
 import (
+	"go/constant"
 	"regexp"
 	"strings"
 
@@ -229,11 +230,50 @@ func init() {
 			if v == "false" {
 				continue
 			}
+			// the answer joined from several paths: each way of answering is judged on the path it comes from
+			if alts := AltsOf(rs.Val); len(alts) > 1 {
+				allConst := true
+				for _, a := range alts {
+					if k, ok := a.V.(*ssa.Const); !ok || k.Value == nil || k.Value.Kind() != constant.Bool {
+						allConst = false
+					}
+				}
+				if allConst {
+					var lp *Loop
+					for _, l := range e.Loops(fn) {
+						if coll, kind := e.RangeOver(l); coll == "recv.items" && kind == "index" {
+							lp = l
+						} else if e.CoversAll(l, "recv.items") {
+							lp = l
+						}
+					}
+					for _, a := range alts {
+						if !constant.BoolVal(a.V.(*ssa.Const).Value) {
+							continue
+						}
+						trues++
+						if !o.Check(lp != nil, "stale-no-scan|(*am/limit.Bucket[V]).IsStale", "IsStale answers true without examining every item", rs.Instr) {
+							continue
+						}
+						hx, _ := lp.HeaderExit()
+						r := (&Walk{Fn: fn, Cut: func(b *ssa.BasicBlock, s int) bool { return b == lp.Header && s == hx }}).FromEntry()
+						o.Check(!r.Has(a.Pred.Instrs[len(a.Pred.Instrs)-1]), "stale-bypass", "IsStale can answer true without finishing the scan over all items", rs.Instr)
+						bi, _ := lp.BodyEntry()
+						rr := (&Walk{Fn: fn, Cut: e.CutLits(exp)}).FromEdge(lp.Header, bi)
+						for _, be := range lp.Back {
+							o.Check(!rr.Edge[be], "stale-live-skipped", "the scan moves on past an item without finding it expired", rs.Instr)
+						}
+					}
+					continue
+				}
+			}
 			trues++
 			// reachable only via the exhaustion exit of a loop over recv.items in which a live item leaves with false
 			var lp *Loop
 			for _, l := range e.Loops(fn) {
 				if coll, kind := e.RangeOver(l); coll == "recv.items" && kind == "index" {
+					lp = l
+				} else if e.CoversAll(l, "recv.items") {
 					lp = l
 				}
 			}
